@@ -164,6 +164,10 @@ type batchCase struct {
 	Native  bool       `json:"native_walkgetattr"`
 	Reqs    []batchReq `json:"reqs"`
 	Release []int      `json:"release"` // order in which gated requests are released (indices into Reqs)
+	// Fatal: before the releases the request stream ends in a way that stops the
+	// server's receiver for good (oversize | undersize | halfclose); the requests
+	// already received must still be answered
+	Fatal string `json:"fatal,omitempty"`
 }
 
 type batchStats struct {
@@ -349,6 +353,20 @@ func runBatchCase(c batchCase, st *batchStats) *fail {
 		if err != nil || r.Type != refcodec.Rgetattr {
 			return failf("other-connection-delayed", "with %d request(s) held on one connection, a getattr on another connection got %v / %v", held, r, err)
 		}
+	}
+	switch c.Fatal {
+	case "oversize", "undersize":
+		bad := refcodec.Encode(withTag(tStatfs(0), 0x7e7e))
+		if c.Fatal == "oversize" {
+			bad[0], bad[1], bad[2], bad[3] = 0xff, 0xff, 0xff, 0x7f
+		} else {
+			bad[0], bad[1], bad[2], bad[3] = 3, 0, 0, 0
+		}
+		p.s.Send(bad)
+		time.Sleep(10 * time.Millisecond)
+	case "halfclose":
+		p.s.C2S.CloseWrite()
+		time.Sleep(10 * time.Millisecond)
 	}
 	// release in the given order; each release must produce that request's reply
 	for _, idx := range c.Release {
@@ -574,6 +592,9 @@ func genBatchCase(rt *rapid.T, maxN int) batchCase {
 		c.Reqs = append(c.Reqs, r)
 	}
 	c.Release = rapid.Permutation(gated).Draw(rt, "release")
+	if len(gated) > 0 && rapid.IntRange(0, 3).Draw(rt, "fatalk") == 0 {
+		c.Fatal = rapid.SampledFrom([]string{"oversize", "undersize", "halfclose"}).Draw(rt, "fatal")
+	}
 	return c
 }
 
@@ -641,6 +662,22 @@ func TestC06(t *testing.T) {
 			}
 		}
 		h.Exhaustive(fmt.Sprintf("1..%d simultaneously held requests x every release order x {no extra, flush of own tag, of an idle tag, of a held request, an unrelated request}", maxK))
+		// the request stream ends fatally while requests are held: they are still answered
+		for _, fatal := range []string{"oversize", "undersize", "halfclose"} {
+			for k := 1; k <= 3; k++ {
+				c := batchCase{Native: k%2 == 0, Fatal: fatal}
+				for i := 0; i < k; i++ {
+					c.Reqs = append(c.Reqs, batchReq{Kind: "gated", Tag: uint16(10 + i), Held: []string{"", "clunk", ""}[i]})
+					c.Release = append(c.Release, k-1-i)
+				}
+				st := &batchStats{}
+				f := runBatchCase(c, st)
+				record(c, st, "enumerated:fatal-end-of-requests")
+				if h.report("enumerated", f, c) {
+					return
+				}
+			}
+		}
 		// the same with requests held inside the release (Close) of a File
 		for _, heldIn := range []string{"clunk", "replace"} {
 			for k := 1; k <= 3; k++ {
